@@ -28,6 +28,10 @@ class ContractError(Exception):
 
 class Engine(ExprMixin, CallMixin):
     def __init__(self, module_name, sidecar, src_root="/repo/src"):
+        # one Engine = one verification target (report.py, tools/*): fresh names restart here, before anything is created, so
+        # the names in a target's obligations (and the solvers' heuristics with them) do not depend on what ran before
+        from .values import reset_uids
+        reset_uids()
         self.module_name = module_name
         self.src_path = os.path.join(src_root, *module_name.split(".")) + ".py"
         self.source = open(self.src_path).read()
@@ -113,6 +117,9 @@ class Engine(ExprMixin, CallMixin):
             self.trivial += 1
             return
         hyps = list(st.pc) + [to_z3(g) for g in guard]
+        # frontier ordering facts (frontier_moves) are hypotheses of every obligation of the path, kept outside st.pc so that
+        # positional proof cuts (`keep n`, `assert_last n`) neither lose them nor have their counts shifted by them
+        hyps = [f for f in st.ghost.get("__alloc__", ()) if not any(f.eq(h) for h in hyps)] + hyps
         self.obls.append(Obligation(f"{self.cur_name}#{name}", self.relevant_global_facts(hyps + [goal]) + hyps, goal,
                                     line=getattr(node, "lineno", None), kind=kind))
 
@@ -475,6 +482,14 @@ class Engine(ExprMixin, CallMixin):
         by the loop (obligation at every write, heap_write).  `entry` = the state at loop entry."""
         al = lc.get("allocates")
         if al is None:
+            # no declaration: the body may still allocate (constructors, callees).  The head state must cover every
+            # iteration, so the allocation frontier there is an unknown not below the frontier at loop entry - otherwise
+            # objects created in different iterations (and after the loop) would share one identity.  Cells at or above the
+            # entry frontier are unconstrained in every field array, which over-approximates whatever earlier iterations
+            # wrote there.
+            a = z3.Int(uid(f"alloc@loop{k}"))
+            self.frontier_moves(st, entry.alloc, a)
+            st.alloc = a
             return
         a0 = to_z3(entry.alloc)
         self.__dict__.setdefault("_alloc_entry", {})[k] = a0
@@ -490,6 +505,12 @@ class Engine(ExprMixin, CallMixin):
             self.assume_heap_wf(st, cls, f)
             same = AND(*[z3.Select(x, r) == z3.Select(y, r) for x, y in zip(leaves(new), leaves(old))])
             st.assume(z3.ForAll([r], z3.Implies(r < a0, same)))
+
+    def frontier_moves(self, st, old, new):
+        """the allocation frontier only moves forward: new >= old.  The fact is also remembered in the state so that proof
+        cuts (cut / keep / assert_last), which drop hypotheses to keep solver contexts small, do not lose it"""
+        f = to_z3(new) >= to_z3(old)
+        st.ghost["__alloc__"] = tuple(st.ghost.get("__alloc__", ())) + (f,)
 
     def heap_write(self, st, ref, field, val):
         for fr in self.__dict__.get("touch_stack", []):
@@ -1571,7 +1592,7 @@ class Engine(ExprMixin, CallMixin):
             label = g.get("label", g["at"][:24])
             goal = self.spec_eval(cmd[4:], st)
             self.emit(f"ghost.cut[{label}]", st, goal, node, kind="ghost")
-            st.pc[:] = list(st.ghost.get("__defs__", ())) + [to_z3(goal)]  # (explicit definitions made by "define" stay)
+            st.pc[:] = list(st.ghost.get("__defs__", ())) + [to_z3(goal)]  # (explicit definitions made by "define" stay; frontier facts live in st.ghost)
         elif cmd.startswith("assert_last "):
             # assert P proved from the last n hypotheses only (a smaller context for the solver; fewer hypotheses = sound)
             n, rest = cmd[12:].split(" ", 1)
